@@ -9,6 +9,7 @@ import itertools
 import json
 
 from vf import tagged, universe, harness, spec, drv, loopback
+from vf.tagged import Obj
 from vf.ref import xsdcodec, validity
 
 ID = 'C01'
@@ -50,6 +51,7 @@ def shards(tier):
     for enc in ENCODINGS:
         for pos in ('arg', 'field', 'array'):
             out.append({'level': 'E', 'encoding': enc, 'pos': pos, 'tier': tier})
+    out.append({'level': 'H', 'tier': tier})
     return out
 
 
@@ -314,12 +316,68 @@ def cases_G(gid, tier):
     return out
 
 
+def run_subnames(res, only=None):
+    """members published under another name than their attribute name (sub_name), declared in a parent class and used
+    through a subclass, a customised variant and an array: written-out documents (the reference codecs address members by
+    attribute name), compared element by element"""
+    from lxml import etree
+    I_, U_ = ['p', 'Integer', {}], ['p', 'Unicode', {}]
+    prog = {'tns': universe.TNS, 'classes': [
+        {'n': 'P0', 'fields': [['v', ['p', 'Integer', {'sub_name': 'renamed'}]], ['w', ['p', 'Unicode', {'sub_name': 'dubya'}]], ['k', I_]]},
+        {'n': 'P', 'base': 'P0', 'fields': [['y', ['p', 'Integer', {'sub_name': 'why'}]]]}],
+        'services': [{'n': 'S', 'methods': [{'n': 'm', 'args': [['a', ['c', 'P', {}]], ['b', ['c', 'P0', {}]], ['l', ['a', ['c', 'P', {}], {}]],
+                                                                 ['c', ['c', 'P', {'min_occurs': 1}]]], 'ret': ['c', 'P', {}]}]}]}
+    T = universe.TNS
+
+    def obj(tag, v, w, k, y=None):
+        inner = '<t:renamed>%d</t:renamed><t:dubya>%s</t:dubya><t:k>%d</t:k>' % (v, w, k) + ('<t:why>%d</t:why>' % y if y is not None else '')
+        return '<t:%s>%s</t:%s>' % (tag, inner, tag)
+    body = '<t:m xmlns:t="%s">%s%s<t:l>%s%s</t:l>%s</t:m>' % (T, obj('a', 1, 'one', 11, 111), obj('b', 2, 'two', 22), obj('P', 3, 'three', 33, 333), obj('P', 4, 'four', 44, 444),
+                                                          obj('c', 5, 'five', 55, 555))
+    want_args = [Obj('P', v=1, w='one', k=11, y=111), Obj('P0', v=2, w='two', k=22),
+                 [Obj('P', v=3, w='three', k=33, y=333), Obj('P', v=4, w='four', k=44, y=444)], Obj('P', v=5, w='five', k=55, y=555)]
+    ret = Obj('P', v=7, w='seven', k=77, y=777)
+    for proto in PROTOS:
+        for val in VALIDATORS:
+            key = ['H', proto, val]
+            if only is not None and only != key:
+                continue
+            h = harness.XmlHarness(prog, proto, val)
+            env = xsdcodec.envelope_ns(proto)
+            req = (('<e:Envelope xmlns:e="%s"><e:Body>%s</e:Body></e:Envelope>' % (env, body)) if env else body).encode('utf8')
+            o = h.call_raw('m', req, ret)
+            res['evaluations'] += 1
+            casedoc = {'level': 'H', 'only': key}
+
+            def V(kind, what):
+                res['violations'].append({'sig': 'C01|sub-name|%s|%s' % (kind, proto), 'what': '[%s validator=%s] %s' % (proto, val, what), 'case': casedoc, 'count': 1})
+            if o.escaped is not None or o.fault is not None:
+                V('refused', 'valid request with sub_name members: escaped=%r fault=%r' % (o.escaped, o.fault))
+                continue
+            calls = h.captured('m')
+            if len(calls) != 1 or not tagged.equal(want_args, calls[0][1]):
+                V('args', 'sent %r, function received %r' % (want_args, [c[1] for c in calls]))
+                continue
+            root = etree.fromstring(o.out)
+            got = {etree.QName(e).localname: e.text for e in root.iter() if isinstance(e.tag, str) and len(e) == 0}
+            want = {'renamed': '7', 'dubya': 'seven', 'k': '77', 'why': '777'}
+            if got != want:
+                V('result', 'function returned %r, the response carries %r (expected %r)' % (ret, got, want))
+                continue
+            res['nontrivial'] += 1
+            res['outcomes']['sub-name-ok'] = res['outcomes'].get('sub-name-ok', 0) + 1
+
+
 ENCODINGS = ['iso-8859-1', 'utf-16', 'ascii', 'utf-8']
 
 
 def run_shard(shard):
     res = new_res()
     tier = shard.get('tier', 'quick')
+    if shard['level'] == 'H':
+        run_subnames(res)
+        res['cov']['programs'] += 1
+        return compress(res)
     if shard['level'] == 'E':
         program = universe.program_for(atom_by_id('Unicode'), shard['pos'])
         res['cov']['programs'] += 1
@@ -380,6 +438,9 @@ def replay(case):
     res = new_res()
     if case.get('build_only'):
         run_program(case['program'], [], res, case.get('desc', 'replay'))
+        return res['violations']
+    if case['level'] == 'H':
+        run_subnames(res, case['only'])
         return res['violations']
     if case['level'] == 'A':
         at = atom_by_id(case['atom'])
